@@ -88,6 +88,13 @@ def make_lifetime(dist, dims, base, shapes, extra, inflow_at="middle", n_pts=1, 
             c.set_prms(**{nm: v + 0.5 * (k + 1) for nm, v in prms.items()})
             _ = c.sf
         return lm
+    if via == "nudge":  # the tables were computed for parameters that differ from the final ones by a relative 2**-20
+        lm = cls(dims=dims, inflow_at=inflow_at, n_pts_per_interval=n_pts)
+        lm.set_prms(**{nm: v * (1.0 + 2.0 ** -20) for nm, v in prms.items()})
+        _ = lm.sf
+        _ = lm.pdf
+        lm.set_prms(**prms)
+        return lm
     if via == "used":  # the model was used by stocks (stock-driven with the manual solver, inflow-driven) before
         import flodym as _f
 
@@ -192,7 +199,7 @@ def driver_series(name, n, extra):
     return out
 
 
-def run_stock(kind, grid, lt, quad, extra, shapes, driver, via="ctor", int_dtype=False, pass_arrays=False, recompute=False, lm=None):
+def run_stock(kind, grid, lt, quad, extra, shapes, driver, via="ctor", int_dtype=False, pass_arrays=False, recompute=False, lm=None, shadow=False):
     """Build and compute one dynamic stock model.  `driver`: dict (t,label)->value (inflow for
     'inflow', prescribed stock for 'stock-*').  Returns dict of observed tables + the object."""
     import flodym
@@ -232,6 +239,19 @@ def run_stock(kind, grid, lt, quad, extra, shapes, driver, via="ctor", int_dtype
         lm.set_prms(**prms_now)
         getattr(s, which).values[...] = dv
     s.compute()
+    if shadow:
+        # shallow copies of the computed stock (scenario variants) get their OWN driver / result arrays with other
+        # values and are computed; the original must keep its results and cohort tables
+        import copy
+
+        for k, mk in enumerate((lambda: copy.copy(s), lambda: s.model_copy())):
+            try:
+                c = mk()
+                for nm in ("stock", "inflow", "outflow"):
+                    setattr(c, nm, flodym.StockArray(dims=dims, values=np.array(getattr(s, nm).values, dtype=float) * (3.0 + k) + 1.0))
+                c.compute()
+            except Exception:
+                pass
     out = dict(
         obj=s,
         lm=lm,
